@@ -154,14 +154,31 @@ def _pairs_work(units):
 
     out = {"cov": {}, "viol": [], "outcomes": [], "samples": [], "known": {}}
     probes = [{"uid": u} for u in (1, "1", 7, "x", 2, 3, 4, 5, 6, 8, 9, 10)]
+    from .. import oracle
+    from ..ref import parse as rp
+
+    def agrees(ev, ast):
+        """every probe result is exactly (value AND type) what the reference scheme gives for `ast`"""
+        for x in probes:
+            if oracle.agree(impl.call(ev, x), oracle.expected(ast, x)):
+                return False
+        return True
+
     for name, cur, other in units:
-        fresh = impl.build(other)
-        want_ok = fresh[0] == "ok"
-        want = [impl.call(fresh[1], x) for x in probes] if want_ok else None
+        ccl, ocl = rp.classify(cur), rp.classify(other)
+        if ccl[0] != "accept":
+            continue
+        if ocl[0] == "ambiguous":
+            fresh = impl.build(other)  # documentation silent: whatever a fresh constructor does is the model
+            want_ok = fresh[0] == "ok"
+            want_ast = None
+            want = [impl.call(fresh[1], x) for x in probes] if want_ok else None
+        else:
+            want_ok, want_ast, want = ocl[0] == "accept", (ocl[1] if ocl[0] == "accept" else None), None
         b = impl.build(cur)
         if b[0] != "ok":
             continue
-        before = [impl.call(b[1], x) for x in probes]
+        cur_fine = agrees(b[1], ccl[1])
         for attempt in (1, 2):
             try:
                 with quiet():
@@ -169,16 +186,18 @@ def _pairs_work(units):
                 raised = False
             except Exception:  # noqa
                 raised = True
-            after = [impl.call(b[1], x) for x in probes]
             out["cov"]["transitions"] = out["cov"].get("transitions", 0) + 1
-            ok = (not raised and repr(after) == repr(want)) if want_ok else (raised and repr(after) == repr(before))  # repr: 1 is not 1.0
-            out["outcomes"].append(f"pair:{name.split('/')[0]}:{want_ok}:{ok}")
+            if want_ok:
+                ok = not raised and (agrees(b[1], want_ast) if want_ast is not None else repr([impl.call(b[1], x) for x in probes]) == repr(want))
+            else:
+                ok = raised and (agrees(b[1], ccl[1]) or not cur_fine)
+            out["outcomes"].append(f"pair:{name.split('/')[0][:24]}:{want_ok}:{ok}")
             if not ok:
                 out["cov"]["violating_cases"] = out["cov"].get("violating_cases", 0) + 1
                 out["viol"].append({"kind": "life:collision", "fingerprint": name, "current": cur, "text": other, "attempt": attempt,
-                                    "why": f"recompile of a text whose {name.split('/')[0]} fingerprint equals the current text's: " +
-                                           ("it must switch to the new experiment" if want_ok else "it is invalid and must raise every time, changing nothing") +
-                                           f"; raised={raised}, probes {'unchanged' if after == before else 'changed'}"})  # fmt: skip
+                                    "why": f"recompile of a text that a careless change detector / cache would confuse with the current one ({name.split('/')[0]}): " +
+                                           ("it must switch to the new experiment (value and type of every group)" if want_ok else "it is invalid and must raise every time, changing nothing") +
+                                           f"; raised={raised}"})  # fmt: skip
                 break
     return out
 
